@@ -21,7 +21,11 @@ type Stats struct {
 	URLs                                         int
 	PorcupineOK, PorcupineIllegal, PorcupineUnknown int
 	FreshnessObligations                         int64
+	PorcupineSkipped                             int
 }
+
+// MaxPorcupineOps bounds the size of a per-URL partition handed to porcupine (0 = no bound).
+var MaxPorcupineOps = 0
 
 // Check runs the four history monitors of DESIGN.md appendix B over a merged history.
 // entriesNeverExpire: no stored bundle expires during the run, so a read after a completed write must not miss.
@@ -122,7 +126,11 @@ func Check(events []Event, porcTimeout time.Duration) ([]Finding, Stats) {
 				add("stale-read", fmt.Sprintf("Get(%.40q) started after Set(%d) had returned but yielded the older bundle %d (its Set returned before Set(%d) was called)", u, w.ID, v.ID, w.ID), g, w, v)
 			}
 		}
-		// 4: atomic register (porcupine)
+		// 4: atomic register (porcupine); partitions above the size limit are left to monitors 1-3 (counted, not a verdict)
+		if MaxPorcupineOps > 0 && len(evs) > MaxPorcupineOps {
+			st.PorcupineSkipped++
+			continue
+		}
 		var ops []porcupine.Operation
 		for _, e := range evs {
 			if e.Op == "get" && e.ID == -1 {
